@@ -26,6 +26,7 @@ type Plan struct {
 }
 
 var verifDir = "/verif"
+var onlyFilter string
 
 func main() {
 	if len(os.Args) < 2 {
@@ -42,6 +43,7 @@ func main() {
 	verbose := fs.Bool("v", false, "verbose")
 	noEvidence := fs.Bool("no-evidence", false, "do not write evidence/replay files")
 	learn := fs.Bool("learn", false, "compute unsat cores and store them as proof hints")
+	only := fs.String("only", "", "discharge only obligations whose name contains this (debugging)")
 	vd := fs.String("verif", envOr("VERIF_DIR", "/verif"), "verif directory")
 	fs.Parse(os.Args[2:])
 	verifDir = *vd
@@ -65,6 +67,7 @@ func main() {
 			fmt.Println(k, len(P.Funcs[k]))
 		}
 	case "check":
+		onlyFilter = *only
 		os.Exit(check(*repo, *prop, *tier, *fnKey, *keep, *verbose, *noEvidence))
 	default:
 		fmt.Fprintln(os.Stderr, "unknown command", cmd)
@@ -194,6 +197,9 @@ func check(repo, prop, tier, fnKey string, keep, verbose, noEvidence bool) int {
 		}
 		if skip {
 			excluded = append(excluded, n)
+			continue
+		}
+		if onlyFilter != "" && !strings.Contains(n, onlyFilter) {
 			continue
 		}
 		obs = append(obs, ob)
